@@ -1042,3 +1042,28 @@ Proof.
     destruct (relation_members_ok _ _ _ _ _ _ _ _ Hs H2 H3 H4) as (L1 & L2 & _).
     destruct H5; [contradiction|lia].
 Qed.
+
+(* a block without any stringtable field has the empty table, whatever the decoder decoded before:
+   every string reference in it is out of range *)
+Lemma table_from_no_field : forall m t, has_field 1 m = false -> table_from t m = t.
+Proof.
+  unfold table_from. induction m as [|f r IH]; intros t H; [reflexivity|].
+  cbn [has_field existsb] in H. apply orb_false_iff in H as [H1 H2].
+  cbn [fold_left]. rewrite H1. apply IH. exact H2.
+Qed.
+
+Lemma table_of_no_field m : has_field 1 m = false -> table_of m = [].
+Proof. intros H. apply (table_from_no_field m [] H). Qed.
+
+(* hence: a way with at least one tag in a block without stringtable is damage, whatever table the
+   decoder holds from the block it decoded before *)
+Theorem stringtable_removed_way_is_err c m g w k ks vs :
+  has_field 1 m = false ->
+  In (2, WMsg g) m -> In (3, WMsg w) g -> skip_ways c = false ->
+  col 2 w = Some (k :: ks) -> col 3 w = Some vs ->
+  forall st, exists e, scan_result c st m = Err e.
+Proof.
+  intros Hno Hg Hw Hs Hk Hv. apply in_block_damage_is_err.
+  eapply (IB_way_tag c m g w (k :: ks) vs k); try eassumption; [left; left; reflexivity|].
+  rewrite (table_of_no_field m Hno). unfold u32_in_table, in_table. cbn. lia.
+Qed.
